@@ -50,7 +50,9 @@ def setup_net(case):
             r = t['resolver']
             v4, v6 = (AF4, '198.51.100.%d' % (1 + abs(hash_str(host)) % 200)), (AF6, '2001:db8:aaaa::%x' % (1 + abs(hash_str(host)) % 60000))
             v4b, v6b = (AF4, '198.51.100.%d' % (201 + abs(hash_str(host)) % 50)), (AF6, '2001:db8:bbbb::%x' % (1 + abs(hash_str(host)) % 60000))
-            ips = {'v4': [v4], 'v6': [v6], 'both46': [v4, v6], 'both64': [v6, v4], 'mixed464': [v4, v6, v4b], 'mixed646': [v6, v4, v6b], 'many': [v6, v6b, v4, v4b]}[r]
+            ll = (AF6, 'fe80::5:%x' % (1 + abs(hash_str(host)) % 60000))       # a link-local address: the resolver's answer carries the interface (scope id)
+            net.scopes[ll[1]] = 2 + abs(hash_str(host)) % 5
+            ips = {'v4': [v4], 'v6': [v6], 'both46': [v4, v6], 'both64': [v6, v4], 'mixed464': [v4, v6, v4b], 'mixed646': [v6, v4, v6b], 'many': [v6, v6b, v4, v4b], 'linklocal': [ll], 'linklocal+v4': [ll, v4]}[r]
             net.resolve[host] = ips
         for af, ip in ips:
             if 1 <= port <= 65535:
@@ -70,7 +72,7 @@ def eval_case(case):
     targets = case['targets']
     fails = []
     net, srv = setup_net(case)
-    argv = ['-n'] + (['-j'] if case['json'] else []) + (fam.split() if fam else []) + (['--skip-rate-test'] if not case.get('rate') else [])
+    argv = ['-n'] + (['-j'] if case['json'] else []) + (fam.split() if fam else []) + (['--skip-rate-test'] if not case.get('rate') else []) + list(case.get('view') or [])
     if case['p_opt'] is not None:
         argv += ['-p', str(case['p_opt'])]
     if case.get('policy'):
@@ -97,7 +99,7 @@ def eval_case(case):
         if path:
             os.unlink(path)
     invalid = [t for t in targets if not (1 <= t['eport'] <= 65535)] or (case['p_opt'] is not None and not (1 <= case['p_opt'] <= 65535))
-    cl = (['has-ssh1-target'] if any(t.get('ssh1') for t in targets) else []) + ['where:' + case['where'], 'fam:' + (fam or 'none'), 'json' if case['json'] else 'text', 'policy-audit' if case.get('policy') else 'standard-audit'] + ['spell:' + t['spelling'] for t in targets[:1]] + (['invalid-port'] if invalid else []) + (['-p'] if case['p_opt'] is not None else [])
+    cl = (['view:' + ' '.join(case['view'])] if case.get('view') else []) + (['link-local'] if any(t.get('resolver', '').startswith('linklocal') and not (':' in t['host'] or t['host'][0].isdigit()) for t in targets) else []) + (['has-ssh1-target'] if any(t.get('ssh1') for t in targets) else []) + ['where:' + case['where'], 'fam:' + (fam or 'none'), 'json' if case['json'] else 'text', 'policy-audit' if case.get('policy') else 'standard-audit'] + ['spell:' + t['spelling'] for t in targets[:1]] + (['invalid-port'] if invalid else []) + (['-p'] if case['p_opt'] is not None else [])
     v6 = any(':' in t['host'] for t in targets)
     nt = v6 or bool(fam) or (case['where'] == 'file' and case['p_opt'] is not None) or bool(invalid)
     if r.hang:
@@ -154,6 +156,14 @@ def eval_case(case):
         by_target.setdefault(owner['text'], []).append(af)
         if not nb:
             audit_conns.setdefault(owner['text'], []).append(af)
+    # the socket address handed to connect() is the one the resolver gave: an IPv6 address keeps its flow and scope fields
+    seen_sig = set()
+    for a, c in zip(net.connect_addrs, net.connects):
+        if ':' in a[0] and (a[3] if len(a) == 4 else 0) != net.scopes.get(a[0], 0):
+            sig = 'rate-check-connection-without-ipv6-scope-id' if c[4] else 'ipv6-socket-address-not-the-resolvers'
+            if sig not in seen_sig:
+                seen_sig.add(sig)
+                fails.append([sig, 'argv %r: connect(%r), the resolver answered scope id %d' % (argv, a, net.scopes.get(a[0], 0))])
     for t in targets:
         ips = net.resolve.get(t['host']) or [(AF6 if ':' in t['host'] else AF4, t['host'])]
         usable = [a for a, _ in ips if a in allowed]
@@ -217,10 +227,10 @@ def strat_case():
         else:
             spelling = ['host', 'host:port'][sp % 2]
         return {'host': h, 'port': p, 'spelling': spelling, 'resolver': res}
-    tgt = st.tuples(host, port, st.integers(0, 5), st.sampled_from(['v4', 'v6', 'both46', 'both64', 'mixed464', 'mixed646', 'many'])).map(target)
+    tgt = st.tuples(host, port, st.integers(0, 5), st.sampled_from(['v4', 'v6', 'both46', 'both64', 'mixed464', 'mixed646', 'many', 'linklocal', 'linklocal+v4'])).map(target)
 
     def build(t):
-        tg, where, p_opt, fam, js, noise, n_extra, rate, pol = t
+        tg, where, p_opt, fam, js, noise, n_extra, rate, pol, view = t
         targets = list(tg[:1 + (n_extra if where == 'file' else 0)])
         if where == 'file' and n_extra == 2 and len(targets) == 3:
             # the same host listed again on another port (a different target)
@@ -244,9 +254,12 @@ def strat_case():
             out.append(dict(x, eport=eport, text=spell(x['host'], x['port'], x['spelling'])))
         if where == 'file' and not pol and n_extra and (len(out[0]['host']) + out[0]['port']) % 3 == 0:
             out[0]['ssh1'] = True             # one of the listed servers speaks protocol 1 only
-        return {'targets': out, 'where': where, 'p_opt': p_opt, 'fam': fam, 'json': js, 'noise': noise and where == 'file', 'rate': rate and where == 'cli' and not js and not pol, 'policy': pol}
+        if pol and '-l' in view and view[view.index('-l') + 1] != 'info':
+            view = [x for x in view if x not in ('-l', 'warn', 'fail')]        # the lines of a policy verdict are informational ones: a minimum level hides them by definition
+        return {'targets': out, 'where': where, 'p_opt': p_opt, 'fam': fam, 'json': js, 'noise': noise and where == 'file', 'rate': rate and where == 'cli' and not js and not pol, 'policy': pol, 'view': view}
     return st.tuples(st.lists(tgt, min_size=3, max_size=3), st.sampled_from(['cli', 'cli', 'file']), st.one_of(st.none(), st.none(), st.sampled_from([22, 2222, 1, 65535, 8022])), st.sampled_from(['', '', '', '-4', '-6', '-46', '-64', '-4', '-6', '-46', '-64', '-44', '-66', '-4 -4', '-6 -6', '-4 -6', '-6 -4', '-4 -6 -4', '-6 -4 -6', '-446', '-664']),
-                     st.booleans(), st.booleans(), st.integers(0, 2), st.sampled_from([False, False, False, True]), st.sampled_from([False, False, True])).map(build)
+                     st.booleans(), st.booleans(), st.integers(0, 2), st.sampled_from([False, False, False, True]), st.sampled_from([False, False, True]),
+                     st.sampled_from([[], [], [], ['-l', 'warn'], ['-l', 'fail'], ['-b'], ['-v'], ['-b', '-l', 'fail'], ['-l', 'info']])).map(build)
 
 
 def strat_invalid():
